@@ -342,6 +342,24 @@ pub fn gen(r: &mut Rng, thorough: bool) -> Vec<(String, String)> {
         all2(r, &mut v, "polygon", hpts2(&pg));
         all2(r, &mut v, "roundcuboid2", format!("{} {}", d2::hv(&he2), hx(br)));
         all2(r, &mut v, "roundpolygon", format!("{} {}", hpts2(&pg), hx(br)));
+        // ---- exact ties: vertices that differ by a vector orthogonal to the direction (all arithmetic exact on the lattice)
+        if lat {
+            let d = gen_dir3(r, true);
+            let w1 = d.cross(&d3::gen_v(r, true, 1.0)); let w2 = d.cross(&d3::gen_v(r, true, 1.0));
+            let (ta, tb, tc) = (a, a + w1, a + w2);
+            v.push(("segment_local".into(), format!("{} {} {}", d3::hp(&ta), d3::hp(&tb), d3::hv(&d))));
+            v.push(("segment_local".into(), format!("{} {} {}", d3::hp(&tb), d3::hp(&ta), d3::hv(&d))));
+            v.push(("capsule_local".into(), format!("{} {} {} {}", d3::hp(&ta), d3::hp(&tb), hx(r1), d3::hv(&d))));
+            v.push(("triangle_local".into(), format!("{} {} {} {}", d3::hp(&ta), d3::hp(&tb), d3::hp(&tc), d3::hv(&d))));
+            v.push(("triangle_local".into(), format!("{} {} {} {}", d3::hp(&tc), d3::hp(&ta), d3::hp(&tb), d3::hv(&d))));
+            v.push(("triangle_edge".into(), format!("{} {} {} {}", d3::hp(&tb), d3::hp(&tc), d3::hp(&ta), d3::hv(&d))));
+            v.push(("cloud_id".into(), format!("{} {}", hpts3(&[tc, ta, b, tb]), d3::hv(&d))));
+            let d2v = gen_dir2(r, true);
+            let p2 = d2::Vector::new(-d2v.y, d2v.x) * *r.pick(&[0.5, 1.0, -1.0, 2.0]);
+            v.push(("segment2_local".into(), format!("{} {} {}", d2::hp(&a2), d2::hp(&(a2 + p2)), d2::hv(&d2v))));
+            v.push(("triangle2_local".into(), format!("{} {} {} {}", d2::hp(&a2), d2::hp(&(a2 + p2)), d2::hp(&(a2 - p2)), d2::hv(&d2v))));
+            v.push(("capsule2_local".into(), format!("{} {} {} {}", d2::hp(&(a2 + p2)), d2::hp(&a2), hx(r1), d2::hv(&d2v))));
+        }
         // ---- feature maps (directions are unit for the trait method; `support_face` takes any vector)
         for k in 0..2 {
             let d = if k == 0 { gen_dir3(r, lat) } else { gen_unit3(r, lat) };
